@@ -233,13 +233,15 @@ def prior_job(job):
     pp = common.import_pyparsing()
     n, bad = 0, []
 
-    def views(root, s):
+    def views(root, s, before=None):
         out = []
         for name, f in (("scan", lambda: [(t.as_list(), a, b) for t, a, b in root.scan_string(s)]),
                         ("search", lambda: root.search_string(s).as_list()),
                         ("transform", lambda: root.transform_string(s)),
                         ("split", lambda: list(root.split(s))),
                         ("parse", lambda: root.parse_string(s).as_list())):
+            if before is not None:
+                before()          # another entry point ran on another string right before this one
             out.append((name, _res(pp, f)))
         return out
 
@@ -257,10 +259,23 @@ def prior_job(job):
                         if other != s:
                             _res(pp, lambda: root2.parse_string(other, parse_all=True))
                             _res(pp, lambda: root2.matches(other))
+                            # entry points that return without a final reset leave their memo entries behind: the next
+                            # entry point must still start from scratch
+                            _res(pp, lambda: root2.search_string(other).as_list())
+                            _res(pp, lambda: [t.as_list() for t, _, _ in root2.scan_string(other, max_matches=1)])
                     res = []
                     for (name, a) in fresh:
                         b = dict(views(root2, s))[name] if False else None
-                    after = views(root2, s)
+                    others = [o for o in job["inputs"] if o != s]
+                    k = [0]
+
+                    def before():
+                        # search_string / scan_string return without a final reset: their memo entries are still there
+                        if others:
+                            o = others[k[0] % len(others)]
+                            k[0] += 1
+                            _res(pp, lambda: root2.search_string(o).as_list())
+                    after = views(root2, s, before)
                     return fresh, after
                 r = common.with_alarm_retry(corr_parse.CASE_TIMEOUT * 4, both)
             except common.CaseTimeout:
